@@ -546,6 +546,36 @@ pub fn run(tier: Tier, seed: u64) -> i32 {
         }
     }
 
+    // variables, loop counters and device outputs that are called like the built-in functions: a name
+    // is a call only when a parenthesis follows it
+    {
+        let sigs = vec![Sig::inp("A", 8, 0), Sig::out("O", 64), Sig::out("signExt", 64), Sig::out("Random", 64)];
+        let body = vec![
+            Stmt::Let("ite".into(), lit(3)),
+            Stmt::Let("random".into(), lit(7)),
+            Stmt::Row(vec![Entry::Lit(0, Radix::Dec), Entry::Paren(bin(BinOp::Add, bin(BinOp::Mul, name("random"), lit(2)), name("ite")))]),
+            Stmt::Row(vec![Entry::Lit(1, Radix::Dec), Entry::Paren(bin(BinOp::Sub, name("signExt"), un(UnOp::Neg, name("ite"))))]),
+            Stmt::Row(vec![Entry::Lit(2, Radix::Dec), Entry::Paren(ite(name("ite"), name("random"), name("Random")))]),
+            Stmt::Loop("random".into(), lit(2), vec![Stmt::Row(vec![Entry::Paren(name("random")), Entry::Paren(bin(BinOp::Shl, name("Random"), name("random")))])]),
+            Stmt::Row(vec![Entry::Lit(3, Radix::Dec), Entry::Paren(bin(BinOp::Lt, name("ite"), name("random")))]),
+        ];
+        let prog = Program { header: vec!["A".into(), "O".into()], body };
+        let text = text(&prog);
+        let script = vec![Step::Ans(vec![("O".into(), V::Num(0)), ("signExt".into(), V::Num(40)), ("Random".into(), V::Num(5))])];
+        let r = ref_run_fuel(&prog, &sigs, &script, 10_000, 40);
+        assert!(r.end == RefEnd::Done && !r.items.is_empty(), "C08 harness: function-named variables: {:?}", r.end);
+        let mut opts = RunOpts::new(r.items.len() + 1);
+        opts.repeat_last = true;
+        let obs = run_dynamic(&text, &sigs, true, &script, &opts);
+        total.evals += 1;
+        total.nontrivial += 1;
+        total.witness("names_spelt_like_built_in_functions");
+        let proj = Proj { input_values: true, expected: true, output: false, checked_kind: true, lines: false, vars: false, verdicts: false };
+        if let Some((k, m)) = crate::compare::run_mismatch(&r, &obs, proj, None) {
+            total.violation(&format!("{} [names spelt like built-in functions]", crate::props::util::classify(&m)), 8 << 32, format!("program:\n{text}first difference at {m} (item {k})"), || dyn_replay(&text, &sigs, true, &script, &opts, crate::compare::ref_items_brief(&r), &obs, &m));
+        }
+    }
+
     // part 3: ite is lazy; part 4: literal radixes
     let st = par_range("3+4: ite laziness cases and literal radix forms", 2, &deadline, |idx, st| {
         if idx == 0 {
@@ -630,7 +660,7 @@ pub fn run(tier: Tier, seed: u64) -> i32 {
             "reference evaluator refsem::binop/unop/climb is the oracle (i64 wrapping, shift count & 63, truncating division, MIN/-1 = MIN, MIN%-1 = 0)".into(),
             "valuations are a fixed set of 12 (4 for the unary-prefixed chains in the quick tier) chosen so that different trees give different values; values outside the boundary sets are not enumerated (DESIGN section 10)".into(),
         ],
-        required_witnesses: vec!["very_long_expression", "expression_after_12000_rows_that_could_not_be_evaluated", "operands_glued_to_operators_next_to_signals_spelt_alike", "operand_written_as_a_function_call", "ite_over_a_floating_or_unknown_device_output", "flat_chain", "unary_prefixed_operand", "explicit_tree", "operator_table_entry", "MIN_op_minus_one", "shift_count_outside_0_63", "ite_with_failing_or_drawing_unselected_branch", "ite_whose_condition_cannot_be_evaluated", "literal_radix_form"],
+        required_witnesses: vec!["very_long_expression", "expression_after_12000_rows_that_could_not_be_evaluated", "operands_glued_to_operators_next_to_signals_spelt_alike", "operand_written_as_a_function_call", "ite_over_a_floating_or_unknown_device_output", "flat_chain", "unary_prefixed_operand", "explicit_tree", "operator_table_entry", "MIN_op_minus_one", "shift_count_outside_0_63", "ite_with_failing_or_drawing_unselected_branch", "ite_whose_condition_cannot_be_evaluated", "names_spelt_like_built_in_functions", "literal_radix_form"],
         exhaustive_note: "all operator triples, shapes, prefixes and operand pairs listed".into(),
         e1: false,
     };
